@@ -2,7 +2,7 @@
 From Coq Require Import List Bool Arith NArith Lia.
 From PV Require Import Base.PyData C08.Model C08.ProofsGraph C08.ProofsStep C08.Proofs C08.ProofsRefine C08.ProofsDecimal
   C08.ProofsRefine2 C08.ProofsRefine3 C08.ProofsRefine4 C08.ProofsRefine5 C08.ProofsRefine6 C08.ProofsRefine7
-  C08.ProofsRefine8 C08.ProofsRefine9 C08.ProofsRefine10 C08.ProofsRefine11 C08.ProofsRefine12 C08.ProofsRefine13.
+  C08.ProofsRefine8 C08.ProofsRefine9 C08.ProofsRefine10 C08.ProofsRefine11 C08.ProofsRefine12 C08.ProofsRefine13 C08.ProofsRefine14.
 Import ListNotations.
 Local Open Scope nat_scope.
 
@@ -53,35 +53,27 @@ Proof.
   - apply refines_abs_single_pass. unfold abs_case_proved. rewrite Ha. reflexivity.
 Qed.
 
-(* set_transit_compartments: every branch that keeps the depot (or has none), on valid states; creating a
-   chain while a lag time is set is the recorded anomaly and is left out; keep_depot=False on a depot:
-   without transits (dose to central, depot removed, chain created in front of central) and behind a
-   chain (last transit connected to central, depot removed, then the loops on that system), every n *)
-Definition transits_kept (n : nat) (keep : bool) (s : sk) : bool :=
-  valid s && (keep || negb (s_depot s))
-  && (Nat.eqb (canon_transits s) n || negb (Nat.eqb (s_transits s) 0)
-      || (Nat.eqb n 1 && absk_eqb (s_abs s) INST) || negb (s_lag s)).
-Definition transits_proved (n : nat) (keep : bool) (s : sk) : bool :=
-  transits_kept n keep s || (negb keep && s_depot s).
+(* set_transit_compartments: EVERY valid state, every n, both keep_depot values.  The depot stays (or there
+   is none): same count, refusal, creation (with a lag time set: the recorded anomaly, result is no
+   skeleton graph), addition, removal.  keep_depot=False on a depot: without transits (dose to central,
+   depot removed, chain created in front of central) and behind a chain (last transit connected to
+   central, depot removed, then the loops on that system). *)
+Definition transits_proved (n : nat) (keep : bool) (s : sk) : bool := valid s.
 
-Lemma transits_kept_refines n keep s : transits_kept n keep s = true -> refines (Transits n keep) s = true.
+Lemma transits_kept_refines n keep s :
+  valid s = true -> (keep = true \/ s_depot s = false) -> refines (Transits n keep) s = true.
 Proof.
-  unfold transits_kept. intro H. apply andb_true_iff in H. destruct H as [H H3].
-  apply andb_true_iff in H. destruct H as [Hv H2].
-  assert (Hk : keep = true \/ s_depot s = false).
-  { destruct keep; [left; reflexivity | right]. cbn [orb] in H2. apply negb_true_iff in H2. exact H2. }
+  intros Hv Hk.
   destruct (Nat.eqb_spec (canon_transits s) n) as [E|N]; [apply refines_transits_same; assumption|].
-  cbn [orb] in H3.
   destruct (Nat.eqb_spec (s_transits s) 0) as [Et|Nt].
-  - cbn [negb orb] in H3.
-    assert (Hc : canon_transits s = 0) by (unfold canon_transits; rewrite Et; destruct (s_depot s); reflexivity).
-    destruct (Nat.eqb_spec n 1) as [->|N1].
-    + destruct (s_abs s) eqn:Ha; cbn [absk_eqb andb orb] in H3.
-      * apply refines_transits_refusal; assumption.
-      * apply refines_transits_create; try assumption; [apply negb_true_iff; exact H3 | lia | right; rewrite Ha; discriminate].
-      * apply refines_transits_create; try assumption; [apply negb_true_iff; exact H3 | lia | right; rewrite Ha; discriminate].
-      * apply refines_transits_create; try assumption; [apply negb_true_iff; exact H3 | lia | right; rewrite Ha; discriminate].
-    + cbn [andb orb] in H3. apply refines_transits_create; try assumption; [apply negb_true_iff; exact H3 | lia | left; exact N1].
+  - assert (Hc : canon_transits s = 0) by (unfold canon_transits; rewrite Et; destruct (s_depot s); reflexivity).
+    assert (Hcase : (n = 1 /\ s_abs s = INST) \/ (n <> 1 \/ s_abs s <> INST)).
+    { destruct (Nat.eq_dec n 1) as [->|N1]; [|right; left; exact N1].
+      destruct (s_abs s); [left; split; reflexivity | right; right; discriminate ..]. }
+    destruct Hcase as [[-> Ha]|Hnr]; [apply refines_transits_refusal; assumption|].
+    destruct (s_lag s) eqn:El.
+    + apply refines_transits_create_lag; try assumption. lia.
+    + apply refines_transits_create; try assumption. lia.
   - destruct (Nat.lt_trichotomy (s_transits s) n) as [L|[E|G]].
     + apply refines_transits_add; try assumption; lia.
     + exfalso. apply N. rewrite <- E. unfold canon_transits. unfold valid in Hv. apply negb_true_iff in Hv.
@@ -93,8 +85,8 @@ Qed.
 
 Lemma transits_refines n keep s : transits_proved n keep s = true -> refines (Transits n keep) s = true.
 Proof.
-  unfold transits_proved. intro H. apply orb_true_iff in H. destruct H as [H|H].
-  - apply transits_kept_refines. exact H.
+  unfold transits_proved. intro Hv.
+  destruct (negb keep && s_depot s) eqn:H.
   - apply andb_true_iff in H. destruct H as [Hk Hd].
     destruct keep; [discriminate Hk|].
     destruct (Nat.eq_dec (s_transits s) 0) as [Et|Nt]; [apply refines_transits_nodepot; assumption|].
@@ -104,6 +96,7 @@ Proof.
     + destruct n as [|n'].
       * apply refines_transits_nodepot_remove_all; [assumption | lia].
       * apply refines_transits_nodepot_remove; try assumption; lia.
+  - apply transits_kept_refines; [exact Hv|]. destruct keep; [left; reflexivity | right]. exact H.
 Qed.
 
 Definition refines_proved (f : req) (s : sk) : bool :=
@@ -157,24 +150,7 @@ Qed.
 Lemma transits_covered n keep s :
   valid s = true -> guard (Transits n keep) s = true -> open_case (Transits n keep) s = false ->
   transits_proved n keep s = true.
-Proof.
-  intros Hv Hg Ho. clear Ho. unfold transits_proved.
-  destruct (negb keep && s_depot s) eqn:Hk'.
-  { apply orb_true_r. }
-  rewrite orb_false_r. unfold transits_kept. rewrite Hv. cbn [andb].
-  replace (keep || negb (s_depot s)) with true by (destruct keep, (s_depot s); try reflexivity; discriminate Hk').
-  cbn [andb].
-  unfold guard in Hg. rewrite !andb_true_iff in Hg. destruct Hg as [[[[[[[[_ _] _] _] _] G] _] _] _].
-  unfold g_transit_no_lag in G. rewrite Hk' in G.
-  destruct (Nat.eqb (canon_transits s) n) eqn:E1; [reflexivity|].
-  destruct (Nat.eqb (s_transits s) 0) eqn:Et; [|reflexivity]. cbn [negb orb].
-  destruct (s_lag s); [|rewrite orb_true_r; reflexivity].
-  apply Nat.eqb_eq in Et. unfold canon_transits in E1. rewrite Et in E1.
-  assert (E0 : Nat.eqb 0 n = false) by (destruct (s_depot s); exact E1).
-  destruct n as [|[|n']]; [discriminate E0| |]; cbn [Nat.eqb negb andb orb] in *.
-  - destruct (absk_eqb (s_abs s) INST); [reflexivity | discriminate G].
-  - discriminate G.
-Qed.
+Proof. intros Hv _ _. exact Hv. Qed.
 
 Lemma covered_proved f s :
   valid s = true -> guard f s = true -> open_case f s = false -> refines_proved f s = true.
